@@ -111,7 +111,7 @@ def norm_format(kind, sfx, bits, widths, file, one):
         else:
             ens.append(('comp%d_end_codes_exact' % i, '(%s != 0 || out[%d] == 0.0f) && (%s != %d || out[%d] == 1.0f)' % (
                 fld('p', i), i, fld('p', i), fmax[i], i)))
-    C('glm_unpack' + F, '%s  %s' % (up, file), ensures=ens)
+    C('glm_unpack' + F, '%s  %s' % (up, file), tier=thorough, timeout=600, ensures=ens)
     # ---- (d) quantisation per field (each field against its own component: this is also the layout of pack)
     q = 'spec_snorm' if signed else 'spec_unorm'
     ens = []
@@ -130,7 +130,8 @@ def norm_format(kind, sfx, bits, widths, file, one):
         # word is tied to it by the relational layout clause below (four 16-bit quantisation proofs in one formula do not finish)
         pass
     else:
-        C('glm_pack' + F, '%s  %s' % (pk, file), tier=thorough if max(widths) < 10 else 'thorough', ensures=ens, timeout=600,
+        # measured on an idle machine: 1x8 7 s, 2x8 17 s, small bit-field formats 5 s; 4x8 42 s, 3x10_1x2 96 s, 1x16 16 s (kissat)
+        C('glm_pack' + F, '%s  %s' % (pk, file), tier='quick' if (max(widths) <= 8 and bits <= 16) else 'thorough', ensures=ens, timeout=600,
           backends=HARD_BACKENDS if slow(widths) else FLOAT_BACKENDS)
     # ---- (c) relational layout against the one-component function
     if one:
@@ -138,7 +139,8 @@ def norm_format(kind, sfx, bits, widths, file, one):
         w = widths[0]
         expr = ' | '.join('((u64)%s(%s) << %d)' % (onefn, XS[i], offs[i]) for i in range(n))
         d.shim('glm_pack%s_layout' % F, W, ins, 'return %s(%s);' % (pk, vecf(n)))
-        C('glm_pack%s_layout' % F, '%s against %s%s%s  %s' % (pk, 'glm::pack', kind, one, file), tier=thorough, uses=[onefn], timeout=600,
+        C('glm_pack%s_layout' % F, '%s against %s%s%s  %s' % (pk, 'glm::pack', kind, one, file), tier='quick' if bits <= 16 else 'thorough',
+          uses=[onefn], timeout=600,
           ensures=[('first_component_least_significant',
                     '%s || (u64)RESULT == (%s)' % (' || '.join('spec_isnan32(%s)' % XS[i] for i in range(n)), expr))])
     # ---- (a) repack
@@ -350,10 +352,29 @@ for fn, real, tier, kw in contracts:
     P.contract(fn, real, tier=tier, **kw)
 
 P.level_text = ('every obligation is a contract clause on the code clang extracts from /repo, discharged by CBMC bit-precisely: '
-                'a symbolic packed word stands for every code of every field at once, a symbolic float for all 2^32 bit patterns')
-P.level_note = ('trusted: clang-14 lowering (incl. its bit-field layout = the x86-64 ABI), ll2c translation (T-checked), CBMC float model, '
-                'spec_pack.h written from the GLSL/OpenGL format definitions quoted in the doc comments')
+                'a symbolic packed word stands for every code of every field at once (2^8 .. 2^64 words), a symbolic float for all '
+                '2^32 bit patterns; clauses: pack(unpack(p)) == p on canonical words, unpack(pack(unpack(p))) bit-equal to unpack(p) on '
+                'all words, field positions (first component least significant), nearest code / clamping per field, special values of '
+                'the 11/10-bit floats')
+P.level_note = ('trusted: clang-14 lowering (incl. its bit-field layout = the x86-64 ABI), ll2c translation (T-checked), CBMC float model and '
+                'its roundf, spec_pack.h written from the GLSL/OpenGL format definitions quoted in the doc comments; 16-bit fields of '
+                '2x16/4x16 and of the templated functions are tied relationally to packUnorm1x16/packSnorm1x16, whose quantisation is proved directly')
 P.technique = 'CBMC code contracts (DFCC enforce) on mechanically extracted C; SAT bit-precise'
 P.design_ref = 'DESIGN.md section 6 C06'
-P.assumptions = []
-P.not_covered = []
+P.assumptions = [
+    'NaN components: no claim on the field they are packed into (float -> integer conversion of NaN is undefined; modelled as a nondeterministic value), other fields are still claimed',
+    'normalised decode "within float rounding" means |out * max - code| <= max * 2^-22; quantisation "nearest" means |code - x * max| <= 0.5 + max * 2^-23 (rounding of the one float multiply)',
+    'small floats: accuracy is claimed on the range with normal codes [2^-14, 65024] (10 bit: [2^-14, 64512]); below 2^-14 only "code below the smallest normal code", below 2^-20 "code 0 or 1"',
+    'bit-field unions: clang x86-64 layout (first declared member in the least significant bits)',
+    'the shim table is the instantiation set: templated packUnorm/packSnorm/unpackUnorm/unpackSnorm for (uint8, vec4), (uint16, vec2), (int8, vec4), (int16, vec2) with float',
+]
+P.not_covered = [
+    'monotonicity of packing (x <= y => pack(x) <= pack(y)): through a float multiply this does not finish in SAT (probed in DESIGN.md for 1x16: undecided in 300 s); not attempted',
+    'packF3x9_E1x5: nothing (pow/log2 are uninterpreted and the float -> uint conversions are out of range for some values of an arbitrary pow, so not even a relational layout clause is provable); '
+    'unpackF3x9_E1x5: field positions only, not the value 2^(e-24) * mantissa',
+    'packRGBM / unpackRGBM (division and ceil of symbolic floats; no bit layout involved)',
+    'packHalf* / unpackHalf* (property C07)',
+    'value of the exponent-0 codes of the 11/10-bit floats: GLM decodes them as 2^-15 * (1 + m/64), OpenGL defines them as denormals 2^-14 * m/64; the property statement does not fix this, no clause',
+    'templated pack/unpack with double or with 32/64-bit integer types; func_packing_simd.inl (C03)',
+    'T-check (native translator validation on random inputs) never compares glm_unpackUnorm4x4 and glm_reunpack_Unorm3x10_1x2: clang leaves an unobservable poison lane in a constant vector operand and the native run-time flags it; the proofs are unaffected (poison = nondeterministic value)',
+]
